@@ -1,6 +1,6 @@
 //! EVAL — the tie for the tree-level evaluator (lean/TaffyVerif/Model/Eval.lean): whole layouts of trees built only from
-//! modelled algorithms (block containers, leaves, display:none subtrees, absolutely positioned children) computed by the
-//! real TaffyTree and by the Lean evaluator with the real nine-slot cache model, compared bit for bit for every node.
+//! modelled algorithms (block and flex containers, leaves, display:none subtrees, absolutely positioned children) computed
+//! by the real TaffyTree and by the Lean evaluator with the real nine-slot cache model, compared bit for bit for every node.
 use crate::common::*;
 use crate::stylefmt::*;
 use crate::treegen::*;
@@ -27,6 +27,35 @@ pub fn gen_block_tree(r: &mut Rng) -> TreeDesc {
     t
 }
 
+/// containers become block or flex containers (every flex style field is already randomised by `gen_style`), childless
+/// nodes keep any display value (they are leaves)
+fn blockflexify(t: &mut TreeDesc, r: &mut Rng, flex_share: usize) {
+    if !t.children.is_empty() && t.style.display != Display::None {
+        t.style.display = if r.below(4) < flex_share { Display::Flex } else { Display::Block };
+    }
+    if t.children.is_empty() && t.style.display != Display::None {
+        t.style.display = *r.pick(&[Display::Block, Display::Flex, Display::Grid]);
+    }
+    for c in &mut t.children {
+        blockflexify(c, r, flex_share);
+    }
+}
+
+/// trees of block and flex containers: all-flex, mixed, or (1 in 4) all-block as before
+pub fn gen_block_flex_tree(r: &mut Rng) -> (TreeDesc, &'static str) {
+    let mut cfg = GenCfg::only(&[Display::Block]);
+    cfg.max_nodes = 2 + r.below(14);
+    cfg.max_depth = 1 + r.below(4);
+    let mut t = gen_tree(r, &cfg);
+    let (share, label) = match r.below(4) {
+        0 => (0, "blocktree"),
+        1 => (4, "flextree"),
+        _ => (2, "mixedtree"),
+    };
+    blockflexify(&mut t, r, share);
+    (t, label)
+}
+
 pub fn run(cfg: &Cfg, out: &mut Out) -> String {
     let n = cfg.n(3000, 200_000);
     for idx in 0..n {
@@ -34,9 +63,10 @@ pub fn run(cfg: &Cfg, out: &mut Out) -> String {
             continue;
         }
         let mut r = Rng::for_case(cfg.seed, idx);
-        let t = gen_block_tree(&mut r);
+        let (t, label) = gen_block_flex_tree(&mut r);
         let avail = gen_available(&mut r);
-        out.begin_case(idx, "blocktree");
+        out.begin_case(idx, label);
+        out.count(&format!("kind:{label}"));
         let req = format!("eval {} {} {}", av(avail.width), av(avail.height), t.line());
         match layout_fresh(&t, avail, false) {
             Ok((tree, root)) => {
@@ -49,6 +79,12 @@ pub fn run(cfg: &Cfg, out: &mut Out) -> String {
                 }
                 let mut v = vec![];
                 t.preorder(&mut v);
+                if v.iter().any(|n| n.style.display == Display::Flex && !n.children.is_empty()) {
+                    out.count("has:flex-container");
+                }
+                if v.iter().any(|n| n.style.display == Display::Block && !n.children.is_empty()) {
+                    out.count("has:block-container");
+                }
                 if v.iter().any(|n| n.style.display == Display::None) {
                     out.count("has:hidden");
                 }
